@@ -35,6 +35,8 @@ def make(name, arg):
     return p
 
 
+IFS5 = ''.join(f'#if C{j}\nI{j};\n#endif\n' for j in range(5)) + 'int tail;\n'      # five blocks: chunk sizes 5, 2, 1 with a clipped last chunk
+IFS4 = ''.join(f'#if D{j}\nI{j};\n#endif\n' for j in range(4))
 ILL_TEXTS = [TOOL_TEXT.rsplit('#endif\n', 1)[0] + 'I5;\n', '#endif\n' + TOOL_TEXT, TOOL_TEXT + '#else\nI6;\n']     # unbalanced conditionals: the helper fails
 
 
@@ -115,10 +117,18 @@ def explore1(ctx, name, arg, text, hist, d):
     return None, steps
 
 
-def sibling_probe(ctx, name, arg, text, d):
+def sibling_probe(ctx, name, arg, text, d, other=None):
     """candidates are a function of (content, cursor, configuration): a pass object that has just worked on one file must
     treat another file of the same base name, size and time stamp exactly as a fresh pass object does"""
+    forced = other
     other = text.translate(str.maketrans('0123456789abcxyz', '1234567890bcayzx'))
+    if forced is not None:
+        other = forced
+    elif ctx.rng.random() < 0.5 and len(text) >= 2:
+        # same size, but the first / last character switches between a comma and something else (peep's delimiters
+        # depend on that)
+        other = (('x' if text[0] == ',' else ',') + text[1:-1] + ('x' if text[-1] == ',' else ',')) if ctx.rng.random() < 0.5 else \
+            (('x' if text[0] == ',' else ',') + text[1:])
     if other == text or len(other.encode()) != len(text.encode()):
         return None
     a, b = d / 'one' / 'a.c', d / 'two' / 'a.c'
@@ -155,7 +165,75 @@ def sibling_probe(ctx, name, arg, text, d):
     used = make(name, arg)
     drive(used, a)
     got = drive(used, b)
+    ctx.notes['last_sibling'] = other
     return None if got == want else f'pass-object-carries-state-between-files:{name}'
+
+
+FRESH = r'''
+import json, sys, copy, shutil, tempfile
+from pathlib import Path
+sys.path.insert(0, sys.argv[1]); sys.path.insert(0, sys.argv[2])
+import textpasses as T
+from cvise.passes.abstract import PassResult, ProcessEventNotifier
+name, arg, path = sys.argv[3], (None if sys.argv[4] == '-' else sys.argv[4]), Path(sys.argv[5])
+p = T.make(name, arg)
+st = p.new(str(path), None)
+outs = []
+for _ in range(int(sys.argv[6])):
+    if st is None:
+        break
+    cd = Path(tempfile.mkdtemp(prefix='c-', dir=path.parent))
+    cand = cd / path.name
+    shutil.copy2(path, cand)
+    res, st2 = p.transform(str(cand), copy.deepcopy(st), ProcessEventNotifier(None))
+    outs.append([res.name, cand.read_text()])
+    shutil.rmtree(cd, ignore_errors=True)
+    if res in (PassResult.STOP, PassResult.ERROR):
+        break
+    st = p.advance(str(path), st)
+print(json.dumps(outs))
+'''
+
+
+def fresh_process_probe(ctx, name, arg, text, d):
+    """the same (content, cursor, configuration) in a process that has seen many other files and in a brand-new
+    interpreter: class-level or module-level memory of earlier inputs shows up as a difference"""
+    import subprocess
+    import sys as _sys
+    from vlib import REPO
+    f = d / 'fresh' / 'a.c'
+    f.parent.mkdir()
+    steps = 3
+    if name == 'peep':
+        # peep's delimiters depend on the first and last character of the file: probe the rarer shape, through all rules
+        text = (',' + text.lstrip(',') if ctx.rng.random() < 0.5 else text.rstrip(',\n') + ',')[:40]
+        steps = 130
+    f.write_text(text)
+    (d / 'fresh.py').write_text(FRESH)
+    r = subprocess.run([_sys.executable, str(d / 'fresh.py'), str(REPO), str(VERIF / 'tools'), name, arg if arg is not None else '-', str(f), str(steps)],
+                       capture_output=True, text=True, timeout=60)
+    if r.returncode != 0:
+        return None
+    want = [tuple(x) for x in json.loads(r.stdout.strip().split('\n')[-1])]
+    p = make(name, arg)
+    st = p.new(str(f), None)
+    got = []
+    for _ in range(steps):
+        if st is None:
+            break
+        cd = Path(tempfile.mkdtemp(prefix='c-', dir=f.parent))
+        cand = cd / f.name
+        shutil.copy2(f, cand)
+        res, st2 = p.transform(str(cand), copy.deepcopy(st), ProcessEventNotifier(None))
+        got.append((res.name, cand.read_text()))
+        shutil.rmtree(cd, ignore_errors=True)
+        if res in (PassResult.STOP, PassResult.ERROR):
+            break
+        st = p.advance(str(f), st)
+    ctx.notes['last_fresh_text'] = text
+    ctx.notes.setdefault('fresh_probes', {}).setdefault(f'{name}::{arg}', 0)
+    ctx.notes['fresh_probes'][f'{name}::{arg}'] += 1
+    return None if got == want else f'candidates-depend-on-what-the-process-saw-before:{name}'
 
 
 def cases(ctx):
@@ -171,6 +249,14 @@ def cases(ctx):
     for name, arg in TOOL_PASSES:
         for _ in range(4 if quick else 30):
             out.append((name, arg, TOOL_TEXT, [rng.random() < 0.5 for _ in range(rng.randint(1, 6))]))
+        if name == 'ifs':
+            # accept exactly the clipped last chunk at chunk size 2 (the path through advance_on_success -> advance -> copy)
+            out.append((name, arg, IFS5, [False] * 6 + [True, False, False]))
+            out.append((name, arg, IFS4, [False] * 4 + [True, False, False]))
+            for h in ([False, False, True, False, True, True], [True, False, False, False, False, True, False]):
+                out.append((name, arg, IFS5, h))
+            for _ in range(3 if quick else 30):
+                out.append((name, arg, IFS5, [rng.random() < 0.4 for _ in range(rng.randint(4, 8))]))
         if name in ('ifs', 'unifdef'):
             for t in ILL_TEXTS:
                 out.append((name, arg, t, [rng.random() < 0.5 for _ in range(rng.randint(1, 4))]))
@@ -187,16 +273,24 @@ def run(ctx):
     if ctx.replay:
         o = json.load(open(ctx.replay))
         d = Path(tempfile.mkdtemp(prefix='c11-', dir=ctx.scratch))
-        if o['hist'] == 'sibling-probe':
-            sig = sibling_probe(ctx, o['pass'], o['arg'], o['text'], d)
-        else:
-            sig, _ = explore(ctx, o['pass'], o['arg'], o['text'], o['hist'], d, o.get('tool_fail'))
+        try:
+            if o['hist'] == 'fresh-process-probe':
+                sig = fresh_process_probe(ctx, o['pass'], o['arg'], o['text'], d)
+            elif o['hist'] == 'sibling-probe':
+                sig = sibling_probe(ctx, o['pass'], o['arg'], o['text'], d, o.get('other'))
+            else:
+                sig, _ = explore(ctx, o['pass'], o['arg'], o['text'], o['hist'], d, o.get('tool_fail'))
+        except Exception as e:
+            sig = f"pass-method-raises-on-a-reachable-cursor:{o['pass']}"
+            print(type(e).__name__, e)
         print('replayed ->', sig or 'holds')
         if sig:
             ctx.report(sig, 'replayed', o)
         return 1 if ctx.violations else 0
     ctx.lean_gate(OBLIGATIONS)
     per = {}
+    sib = None
+    fresh_budget = [30 if ctx.tier == 'quick' else 300]
     for name, arg, text, hist, *tf in cases(ctx):
         tf = tf[0] if tf else None
         d = Path(tempfile.mkdtemp(prefix='c11-', dir=ctx.scratch))
@@ -212,16 +306,32 @@ def run(ctx):
             try:
                 sig = sibling_probe(ctx, name, arg, text, d2)
                 hist = 'sibling-probe'
+                sib = ctx.notes.get('last_sibling')
             except Exception as e:
                 ctx.notes.setdefault('exceptions', []).append(f'sibling {name}::{arg}: {e}'[:200])
             finally:
                 shutil.rmtree(d2, ignore_errors=True)
+        if not sig and tf is None and (name, arg) in T.PASSES and ((fresh_budget[0] > 0 and ctx.rng.random() < 0.1) or (name, arg) == ('peep', 'b')):
+            fresh_budget[0] -= 1
+            d3 = Path(tempfile.mkdtemp(prefix='c11f-', dir=ctx.scratch))
+            try:
+                sig = fresh_process_probe(ctx, name, arg, text, d3)
+                hist = 'fresh-process-probe'
+                text = ctx.notes.get('last_fresh_text', text)
+            except Exception as e:
+                ctx.notes.setdefault('exceptions', []).append(f'fresh {name}::{arg}: {e}'[:200])
+            finally:
+                shutil.rmtree(d3, ignore_errors=True)
         ctx.count()
         per[f'{name}::{arg}'] = per.get(f'{name}::{arg}', 0) + steps
         if steps >= 2 or (tf and steps):
             ctx.nontrivial((name, arg, text, tuple(hist)))
-        if sig and not sig.startswith('explorer-exception'):
-            ctx.report(sig, f'{name}::{arg} on {text[:60]!r} history {hist}', {'kind': 'explore', 'pass': name, 'arg': arg, 'text': text, 'hist': hist, 'tool_fail': tf})
+        if sig and sig.startswith('explorer-exception'):
+            # a pass method raised on a cursor reached through new / advance / advance_on_success: cursors are complete values
+            ctx.report('pass-method-raises-on-a-reachable-cursor:' + name, f'{name}::{arg} on {text[:60]!r} history {hist}: {ctx.notes["exceptions"][-1]}',
+                       {'kind': 'explore', 'pass': name, 'arg': arg, 'text': text, 'hist': hist, 'tool_fail': tf})
+        elif sig:
+            ctx.report(sig, f'{name}::{arg} on {text[:60]!r} history {hist}', {'kind': 'explore', 'pass': name, 'arg': arg, 'text': text, 'hist': hist, 'tool_fail': tf, 'other': sib if hist == 'sibling-probe' else None})
     ctx.sample({'pass': 'balanced::parens', 'steps_explored': per.get('balanced::parens')})
     ctx.sample({'tool passes explored with stand-ins': {f'{n}::{a}': per.get(f'{n}::{a}') for n, a in TOOL_PASSES}})
     conclude(ctx, [], None)
